@@ -481,6 +481,33 @@ fn main() {
         let arg = |i: usize| -> String { unhex(args.get(i).copied().unwrap_or("-")) };
         let res = catch_unwind(AssertUnwindSafe(|| match cmd {
             "B" => build(&arg(0)),
+            "XR" => {
+                // C09 (and C12): the verdicts of every way of obtaining the same pattern, each with the program it runs
+                let e = arg(0);
+                let one = |name: &str, exh: String, root: String, pat: &str| format!("{}={}:{}:{}", name, exh, root, hex(pat));
+                let qe = |f: &dyn Fn() -> When| q(|| f(), |w| when(w).to_string());
+                match Glob::new(&e) {
+                    Err(_) => "err".to_string(),
+                    Ok(g) => {
+                        let mut out = vec![];
+                        let o = g.clone().into_owned();
+                        out.push(one("into-owned", qe(&|| o.is_exhaustive()), qe(&|| o.has_root()), o.verif_pattern()));
+                        if let Ok(p) = Glob::from_str(&e) {
+                            out.push(one("from-str", qe(&|| p.is_exhaustive()), qe(&|| p.has_root()), p.verif_pattern()));
+                        }
+                        if let Ok(a) = wax::any([e.as_str()]) {
+                            out.push(one("any-text", qe(&|| a.is_exhaustive()), qe(&|| a.has_root()), a.verif_pattern()));
+                        }
+                        if let Ok(a) = wax::any([g.clone()]) {
+                            out.push(one("any-compiled", qe(&|| a.is_exhaustive()), qe(&|| a.has_root()), a.verif_pattern()));
+                        }
+                        if let Ok(a) = wax::any([o]) {
+                            out.push(one("any-owned", qe(&|| a.is_exhaustive()), qe(&|| a.has_root()), a.verif_pattern()));
+                        }
+                        out.join(" ")
+                    },
+                }
+            },
             "A" | "AC" | "AN" => {
                 let es: Vec<String> = args.iter().skip(1).map(|x| unhex(x)).collect();
                 let r = match cmd {
